@@ -9,3 +9,15 @@ claim('C02', 'property-based testing: typed Annex A sentence generator with expe
       'Exploration: ~26 000 (quick) / 360 000 (thorough) generated programs with adversarial identifiers and random layout must be accepted, and every declared name must sit under the expected identifier kind inside the expected Annex A construct kind; every keyword/identifier token must be exactly one leaf. Shrinks to a minimal program.',
       'Trusts that the generator derives only Annex A sentences (validated family by family against the unchanged tree; forms ambiguous in Annex A carry sets of admissible kinds).',
       'DESIGN.md 6 C02, 3.1')
+claim('C03', 'property-based testing: generated include/macro/conditional file trees with globally unique tokens; per-output-position origin oracle from source search + reference-model labels',
+      'Exploration: ~30 000 (quick) / 400 000 (thorough) generated file trees; every output byte is checked: unique tokens against the exact (file, offset) found by searching the sources, macro text against the defining file and body start, synthesised text against none, white space against exact or byte-equal file positions; plus get_origin == origin on every leaf of parsed multi-file programs.',
+      'Trusts the reference preprocessor model only for labelling which output token came from which file / macro; exact offsets come from searching unique tokens in the source files, not from the model.',
+      'DESIGN.md 6 C03, 4.3')
+claim('C04', 'property-based testing: generated conditional-compilation programs vs. reference preprocessor (differential, token-for-token + define table)',
+      'Exploration: ~70 000 (quick) / 900 000 (thorough) generated programs with nested chains, all define/undef patterns, dead branches full of would-be errors and random caller tables; the output tokens, the final define table and the absence of errors from dead branches are compared with an AST-level reference model of IEEE 22.6. Known finding K2 is classified by an exact model deviation flag.',
+      'Trusts the reference model (harness/src/ppm/model.rs) and the harness lexer; white-space differences are not judged.',
+      'DESIGN.md 6 C04, 4.4')
+claim('C05', 'property-based testing: generated define/usage programs incl. single injected misuse vs. reference preprocessor (token-for-token output, error payload, define table)',
+      'Exploration: ~160 000 (quick) / 1.9 M (thorough) generated programs covering formals/defaults/empty and omitted actuals/nested brackets/strings/pasting/stringification/continuations/nested usages/redefinition; expected DefineNotFound / DefineArgNotFound / DefineNoArgs payloads are checked by injecting exactly one fault. Known finding K6 is classified by an exact model deviation flag.',
+      'Trusts the reference model and lexer; constructs whose meaning the standard leaves open (more actuals than formals, usages inside `"…`") are not generated.',
+      'DESIGN.md 6 C05, 4.4')
